@@ -7,6 +7,7 @@ import ALV.Lemmas.C19
 import ALV.Lemmas.C19Shapes
 import ALV.Lemmas.C19Table
 import ALV.Lemmas.C19Real
+import ALV.Lemmas.C19Resample
 import Mathlib.Tactic.NormNum
 import ALV.Common.Audit
 
@@ -211,6 +212,54 @@ example : tableGetItem [(0 : Rat), 10, 20, 30] (7/2) = some 15 := by decide +ker
 example : tableGetItem [(0 : Rat), 10, 20, 30] (-1/2) = some 0 ∧ interpCyc [(0 : Rat), 10, 20, 30] (-1/2) = 15 := by
   decide +kernel
 example : karplus (1 : Rat) (9/4) [1, 2, 3] 6 = [9/4, 5/4, 31/16, 3/2, 113/64, 103/64] := by decide +kernel
+
+/-! ## resample -/
+
+/-- **C19.res.1** (constant step `old/new ≥ 0`, order ≥ 1, at least `order/2 + 1` input samples)
+the generator — `deque` window, `while idx > threshold` loop, `lagrange(enumerate(data))(idx)` —
+yields exactly the specification: output `m` is the order-`p` Lagrange interpolation of the
+`p+1` neighbouring samples of the left-zero-extended input at position `m·old/new`, as long as
+that window does not reach past the last input sample; it ends (`≠ fuel`) exactly when the
+specification does — i.e. when its input does.  For every input, zero value and `n`. -/
+theorem resample_eq_spec (xs : List K) (s : K) (order : Nat) (zero : K) (n : Nat)
+    (ho : 1 ≤ order) (hlen : order / 2 + 1 ≤ xs.length) (hs : 0 ≤ s) :
+    ∃ r, resample xs (.num s) order zero n = .ok r ∧
+      r.1 = (resampleSpec xs (.num s) order zero n).1 ∧
+      (r.2 ≠ .fuel ↔ (resampleSpec xs (.num s) order zero n).2 = true) :=
+  resample_num xs s order zero n ho hlen hs
+
+/-- **C19.res.2** the same for a time-varying step (a stream of non-negative steps): positions
+are the running sums, and the output also ends when the step stream does. -/
+theorem resample_stream_eq_spec (xs ss : List K) (order : Nat) (zero : K) (n : Nat)
+    (ho : 1 ≤ order) (hlen : order / 2 + 1 ≤ xs.length) (hss : ∀ s ∈ ss, 0 ≤ s) :
+    ∃ r, resample xs (.strm ss) order zero n = .ok r ∧
+      r.1 = (resampleSpec xs (.strm ss) order zero n).1 ∧
+      (r.2 ≠ .fuel ↔ (resampleSpec xs (.strm ss) order zero n).2 = true) :=
+  resample_strm xs ss order zero n ho hlen hss
+
+/-- **C19.res.3** integer positions reproduce the input: at position `p ∈ ℕ` the interpolated
+value is the input sample `x[p]` (whatever the order). -/
+theorem resample_integer_position (xs : List K) (zero : K) (order : Nat) (p : Nat) :
+    resValue xs zero order (((p : Int) : K)) = xs.getD p zero := by
+  rw [resValue_nat]; simp [extGet]
+
+/-- **C19.res.4** the Waring–Lagrange interpolator on `enumerate(data)` returns `data[i]` at
+node `i` (C07.4 for the nodes `0..p`). -/
+theorem lagrange_interpolates (data : List K) (i : Nat) (hi : i < data.length) :
+    lagrangeEnum data (((i : Int) : K)) = data.getD i 0 := lagrangeEnum_node data i hi
+
+/-- **C19.res.5** `order = 0` makes the code raise TypeError (D14): the hypothesis `1 ≤ order`
+of C19.res.1 is forced; the specification itself is meaningful there (nearest neighbour). -/
+theorem resample_order_zero (xs : List K) (step : Arg K) (zero : K) (n : Nat) :
+    resample xs step 0 zero n = .error "TypeError" := by
+  simp [resample]
+
+example : resample [(1 : Rat), 2, 4, 8] (.num (1/2)) 1 0 20 = .ok ([1, 3/2, 2, 3, 4, 6, 8], .input) := by
+  decide +kernel
+example : resampleSpec [(1 : Rat), 2, 4, 8] (.num (1/2)) 1 0 20 = ([1, 3/2, 2, 3, 4, 6, 8], true) := by
+  decide +kernel
+example : (resampleSpec [(1 : Rat), 2, 4, 8, 3] (.num (3/4)) 0 0 20).1 = [1, 2, 2, 4, 8, 3, 3] := by
+  decide +kernel
 
 end ALV.Props.C19
 
